@@ -455,6 +455,70 @@ theorem invE_timeout {N s s' n dsts} (h : InvE N s) (hs : step N s (.timeout n d
     · injection hs with hs; subst hs; exact hcore
   · cases hs
 
+theorem invE_recvVote_core {N : Nat} {s : State} {cand voter : Nat} (h : InvE N s) (hnN : cand < N)
+    (hmem : Msg.vote (s.nodes cand).term voter cand ∈ s.msgs) (hrole : (s.nodes cand).role = .candidate) :
+    InvE N { (setNode s cand { (s.nodes cand) with votes := (s.nodes cand).votes + 1 }) with msgs := s.msgs.erase (Msg.vote (s.nodes cand).term voter cand), g := { s.g with counted := upd2 s.g.counted (s.nodes cand).term cand (voter :: s.g.counted (s.nodes cand).term cand) } } := by
+  have hvm := h.vote_msg _ _ _ hmem
+  have hsv := h.self_vote cand (by rw [hrole]; decide)
+  have hperm : ∀ t c, ((upd2 s.g.counted (s.nodes cand).term cand (voter :: s.g.counted (s.nodes cand).term cand)) t c
+      ++ inflight (s.msgs.erase (Msg.vote (s.nodes cand).term voter cand)) t c).Nodup := by
+    intro t c
+    simp only [upd2]
+    split
+    · rename_i heq; obtain ⟨rfl, rfl⟩ := heq
+      have hnd := h.vc_nodup (s.nodes c).term c
+      have := inflight_perm_erase hmem
+      have hp2 : (s.g.counted (s.nodes c).term c ++ inflight s.msgs (s.nodes c).term c).Perm
+          ((voter :: s.g.counted (s.nodes c).term c) ++ inflight (s.msgs.erase (Msg.vote (s.nodes c).term voter c)) (s.nodes c).term c) := by
+        refine (List.Perm.append_left _ this).trans ?_
+        simp only [List.cons_append]
+        exact List.perm_middle
+      exact hp2.nodup_iff.mp hnd
+    · exact (h.vc_nodup t c).sublist (List.Sublist.append (List.Sublist.refl _) (inflight_erase_sublist _ _ _ _))
+  constructor
+  · intro t k c hv
+    simp only [setNode]; by_cases hk : k = cand
+    · subst hk; simp; exact h.voted_le _ _ _ hv
+    · simp [hk]; exact h.voted_le _ _ _ hv
+  · intro k
+    simp only [setNode]; by_cases hk : k = cand
+    · subst hk; simp; exact h.voted_cur k
+    · simp [hk]; exact h.voted_cur k
+  · intro t v c hm; exact h.vote_msg t v c (List.mem_of_mem_erase hm)
+  · exact hperm
+  · intro t c v hm
+    simp only [upd2] at hm
+    split at hm
+    · rename_i heq; obtain ⟨rfl, rfl⟩ := heq
+      rcases List.mem_cons.mp hm with rfl | hm
+      · exact hvm
+      · exact h.vc_voted _ _ _ hm
+    · exact h.vc_voted _ _ _ hm
+  · intro k hr
+    simp only [setNode, upd2] at hr ⊢
+    by_cases hk : k = cand
+    · subst hk; simp; have := h.vc_votes k hrole; omega -- L78
+    · simp [hk] at hr ⊢
+      exact h.vc_votes k hr
+  · intro k hr
+    simp only [setNode] at hr ⊢; by_cases hk : k = cand
+    · subst hk; simp; exact hsv
+    · simp [hk] at hr ⊢; exact h.self_vote k hr
+  · intro t c v hm
+    simp only [upd2] at hm
+    split at hm
+    · rename_i heq; obtain ⟨rfl, rfl⟩ := heq; exact hsv.1
+    · exact h.counted_self _ _ _ hm
+  · intro k hr
+    simp only [setNode] at hr ⊢; by_cases hk : k = cand
+    · subst hk; simp at hr; simp; exact h.ldr_of k hr
+    · simp [hk] at hr ⊢; exact h.ldr_of k hr
+  · exact h.el_quorum
+  · intro t l hl
+    simp only [setNode]; by_cases hk : l = cand
+    · subst hk; simp; exact h.ldr_le _ _ hl
+    · simp [hk]; exact h.ldr_le _ _ hl
+
 theorem invE_recvVote {N s s' n m} (h : InvE N s) (hs : step N s (.recvVote n m) = some s') : InvE N s' := by
   simp only [step] at hs
   split at hs
@@ -468,67 +532,7 @@ theorem invE_recvVote {N s s' n m} (h : InvE N s) (hs : step N s (.recvVote n m)
         -- core state
         have hvm := h.vote_msg _ _ _ hmem
         have hsv := h.self_vote cand (by rw [hrole]; decide)
-        have hcore : InvE N { (setNode s cand { (s.nodes cand) with votes := (s.nodes cand).votes + 1 }) with
-            msgs := s.msgs.erase (Msg.vote (s.nodes cand).term voter cand),
-            g := { s.g with counted := upd2 s.g.counted (s.nodes cand).term cand (voter :: s.g.counted (s.nodes cand).term cand) } } := by
-          have hperm : ∀ t c, ((upd2 s.g.counted (s.nodes cand).term cand (voter :: s.g.counted (s.nodes cand).term cand)) t c
-              ++ inflight (s.msgs.erase (Msg.vote (s.nodes cand).term voter cand)) t c).Nodup := by
-            intro t c
-            simp only [upd2]
-            split
-            · rename_i heq; obtain ⟨rfl, rfl⟩ := heq
-              have hnd := h.vc_nodup (s.nodes c).term c
-              have := inflight_perm_erase hmem
-              have hp2 : (s.g.counted (s.nodes c).term c ++ inflight s.msgs (s.nodes c).term c).Perm
-                  ((voter :: s.g.counted (s.nodes c).term c) ++ inflight (s.msgs.erase (Msg.vote (s.nodes c).term voter c)) (s.nodes c).term c) := by
-                refine (List.Perm.append_left _ this).trans ?_
-                simp only [List.cons_append]
-                exact List.perm_middle
-              exact hp2.nodup_iff.mp hnd
-            · exact (h.vc_nodup t c).sublist (List.Sublist.append (List.Sublist.refl _) (inflight_erase_sublist _ _ _ _))
-          constructor
-          · intro t k c hv
-            simp only [setNode]; by_cases hk : k = cand
-            · subst hk; simp; exact h.voted_le _ _ _ hv
-            · simp [hk]; exact h.voted_le _ _ _ hv
-          · intro k
-            simp only [setNode]; by_cases hk : k = cand
-            · subst hk; simp; exact h.voted_cur k
-            · simp [hk]; exact h.voted_cur k
-          · intro t v c hm; exact h.vote_msg t v c (List.mem_of_mem_erase hm)
-          · exact hperm
-          · intro t c v hm
-            simp only [upd2] at hm
-            split at hm
-            · rename_i heq; obtain ⟨rfl, rfl⟩ := heq
-              rcases List.mem_cons.mp hm with rfl | hm
-              · exact hvm
-              · exact h.vc_voted _ _ _ hm
-            · exact h.vc_voted _ _ _ hm
-          · intro k hr
-            simp only [setNode, upd2] at hr ⊢
-            by_cases hk : k = cand
-            · subst hk; simp; have := h.vc_votes k hrole; omega -- L78
-            · simp [hk] at hr ⊢
-              exact h.vc_votes k hr
-          · intro k hr
-            simp only [setNode] at hr ⊢; by_cases hk : k = cand
-            · subst hk; simp; exact hsv
-            · simp [hk] at hr ⊢; exact h.self_vote k hr
-          · intro t c v hm
-            simp only [upd2] at hm
-            split at hm
-            · rename_i heq; obtain ⟨rfl, rfl⟩ := heq; exact hsv.1
-            · exact h.counted_self _ _ _ hm
-          · intro k hr
-            simp only [setNode] at hr ⊢; by_cases hk : k = cand
-            · subst hk; simp at hr; simp; exact h.ldr_of k hr
-            · simp [hk] at hr ⊢; exact h.ldr_of k hr
-          · exact h.el_quorum
-          · intro t l hl
-            simp only [setNode]; by_cases hk : l = cand
-            · subst hk; simp; exact h.ldr_le _ _ hl
-            · simp [hk]; exact h.ldr_le _ _ hl
+        have hcore := invE_recvVote_core (voter := voter) h hnN hmem hrole
         split at hs
         · rename_i hmaj
           injection hs with hs; subst hs
